@@ -6,6 +6,7 @@ REPO = os.environ.get('VERIF_REPO', '/repo')
 COQ = os.path.join(VERIF, 'coq')
 BUILD = os.path.join(VERIF, '_build')
 GUARD = 'DATASKETCHES_VERIF'
+PER_FILE_TIMEOUT = 900   # seconds per .v file (a hanging proof is a broken obligation, not a hung check)
 INCLUDE_DIRS = ['common', 'count', 'cpc', 'density', 'fi', 'filters', 'hll', 'kll', 'quantiles', 'req',
                 'sampling', 'tdigest', 'theta', 'tuple']
 FORBIDDEN = re.compile(r'\b(Admitted|admit|Axiom|Axioms|Parameter|Parameters|Conjecture|Conjectures|'
@@ -123,7 +124,7 @@ def coq_make(targets, timeout=1800):
             if rc != 0:
                 return False, out
         tg = ' '.join(t + '.vo' for t in targets)
-        rc, out, dt = sh('timeout %d make -k -j16 %s' % (timeout, tg), cwd=COQ, timeout=timeout + 30)
+        rc, out, dt = sh('timeout %d make -k -j16 COQC="timeout %d coqc" %s' % (timeout, PER_FILE_TIMEOUT, tg), cwd=COQ, timeout=timeout + 30)
         return rc == 0, out
 
 def coq_check_props(propfile, timeout=900):
